@@ -30,7 +30,7 @@ Proof. vm_compute. reflexivity. Qed.
 
 (* ---- the tie to the code: src/polyseed.c as TRANSLATED on this run (Gen/CApi.v) ---- *)
 From Coq Require Import String.
-From PS Require Import Base GFDefs PackDefs StoreDefs MiscDefs StrDefs LangDefs ApiDefs SpecDefs SpecApi GFProofs PackProofs StoreProofs RefineProofs CTieBase CTieLang CTiePhrase CTiePhraseEv CTieSplit CTieApi CTieDecode CTieEncode CTieLocals CTieInject CTieCmp CTieSearch CodeTheorems.
+From PS Require Import Base GFDefs PackDefs StoreDefs MiscDefs StrDefs LangDefs ApiDefs SpecDefs SpecApi GFProofs PackProofs StoreProofs RefineProofs CTieBase CTieLang CTiePhrase CTiePhraseEv CTieSplit CTieApi CTieDecode CTieEncode CTieLocals CTieInject CTieCmp CTieSearch CTieClosed CodeTheorems.
 From PS.Gen Require Import Consts PrivConsts Langs.
 From PS.Gen Require CFuns.
 From PS.Gen Require CApi.
@@ -79,9 +79,11 @@ Print Assumptions C13_code_tie_api_load.
 
 (* polyseed_decode as translated = the mirror step (up to the wipe of `idx`, which is inside polyseed_phrase_decode) *)
 Theorem C13_code_tie_api_decode :
-  forall (sgn : bool) (st : state) (fuel : nat) (D : list Z -> list Z * Z) (ext : Z -> list Z -> Z),
+  forall (sgn : bool) (st : state) (fuel : nat) (D : list Z -> list Z * Z) (ext : Z -> list Z -> Z)
+           (OKW : bytes -> Prop),
          (forall (li : nat) (L : lang) (w : bytes),
-          nth_error langs li = Some L -> ext (Z.of_nat li) (zs w) = enc (lang_search sgn L w)) ->
+          OKW w -> nth_error langs li = Some L -> ext (Z.of_nat li) (zs w) = enc (lang_search sgn L w)) ->
+         (forall t : bytes, no_nul t -> (Datatypes.length t + 2 <= fuel)%nat -> OKW t) ->
          (18 <= fuel)%nat ->
          forall (str : bytes) (coin : N) (ok : bool) (lo lo0 gb gf : Z) (gs : list Z) (gc so0 : Z),
          no_nul str ->
@@ -112,9 +114,11 @@ Print Assumptions C13_code_tie_api_decode.
 
 (* polyseed_decode_explicit as translated = the mirror step *)
 Theorem C13_code_tie_api_decode_explicit :
-  forall (sgn : bool) (st : state) (fuel : nat) (D : list Z -> list Z * Z) (ext : Z -> list Z -> Z),
+  forall (sgn : bool) (st : state) (fuel : nat) (D : list Z -> list Z * Z) (ext : Z -> list Z -> Z)
+           (OKW : bytes -> Prop),
          (forall (li : nat) (L : lang) (w : bytes),
-          nth_error langs li = Some L -> ext (Z.of_nat li) (zs w) = enc (lang_search sgn L w)) ->
+          OKW w -> nth_error langs li = Some L -> ext (Z.of_nat li) (zs w) = enc (lang_search sgn L w)) ->
+         (forall t : bytes, no_nul t -> (Datatypes.length t + 2 <= fuel)%nat -> OKW t) ->
          (18 <= fuel)%nat ->
          forall (str : bytes) (coin : N) (li : nat) (L : lang) (ok : bool) (gb gf : Z) 
            (gs : list Z) (gc so0 : Z),
